@@ -48,8 +48,10 @@ abbrev Graph := Array Node
 
 def Graph.node (g : Graph) (i : Nat) : Node := g.getD i { kind := .leaf }
 def Graph.kind (g : Graph) (i : Nat) : Kind := (g.node i).kind
-/-- every child, keys first (the order in which `visit_hash_map` pushes key, value does not matter here) -/
-def Graph.sons (g : Graph) (i : Nat) : List Nat := (g.node i).keys ++ (g.node i).kids
+/-- every child, keys first (the order in which `visit_hash_map` pushes key, value does not matter here);
+    a leaf has none, whatever the record says -/
+def Graph.sons (g : Graph) (i : Nat) : List Nat :=
+  if (g.node i).kind = .leaf then [] else (g.node i).keys ++ (g.node i).kids
 
 /-- largest number of children of a node -/
 def Graph.maxDeg (g : Graph) : Nat := g.foldl (fun m n => max m (n.keys.length + n.kids.length)) 0
@@ -310,13 +312,15 @@ structure DropSt where
   deriving Repr
 
 /-- pop a reference: the count goes down; the holder of the last reference takes the node apart
-    (`try_unwrap` / `get_mut` succeed) and the children's references go to the queue -/
+    (`try_unwrap` / `get_mut` succeed) and the children's references go to the queue.
+    (A reference to a node whose count is already 0 cannot exist; the arm is there to make the step total.) -/
 def dropStep (g : Graph) (s : DropSt) : Step DropSt (List Nat × List Nat) :=
   match s.work with
   | [] => .done (s.freed, s.rc)
   | v :: rest =>
     let n := s.rc.getD v 0
-    if n ≤ 1 then .next { work := g.sons v ++ rest, rc := s.rc.set v 0, freed := v :: s.freed }
+    if n = 0 then .next { work := rest, rc := s.rc, freed := s.freed }
+    else if n = 1 then .next { work := g.sons v ++ rest, rc := s.rc.set v 0, freed := v :: s.freed }
     else .next { work := rest, rc := s.rc.set v (n - 1), freed := s.freed }
 
 /-- number of references to `v` held by nodes of the graph -/
@@ -345,12 +349,15 @@ def hashRecurses : Kind → Bool
   | .leaf | .closure | .stream => false
   | _ => true
 
-/-- native frames that `hash` of node `v` uses, cut off after `fuel` levels.  With an explicit stack: one. -/
-def hashDepth (c : Cfg) (g : Graph) : Nat → Nat → Nat
+/-- Native frames of a function that calls itself on the children `sons v` of every node `v` with `rec v`,
+    and does not recurse on the others; cut off after `fuel` levels. -/
+def recDepth (sons : Nat → List Nat) (rec : Nat → Bool) : Nat → Nat → Nat
   | 0, _ => 0
-  | f + 1, v =>
-    if c.hashIterative then 1
-    else if hashRecurses (g.kind v) then 1 + maxL ((g.sons v).map (hashDepth c g f)) else 1
+  | f + 1, v => if rec v then 1 + maxL ((sons v).map (recDepth sons rec f)) else 1
+
+/-- native frames that `hash` of node `v` uses.  With an explicit stack: one. -/
+def hashDepth (c : Cfg) (g : Graph) (fuel v : Nat) : Nat :=
+  recDepth g.sons (fun v => !c.hashIterative && hashRecurses (g.kind v)) fuel v
 
 /-- `hash` with `limit` native frames available: `none` = the native stack is exhausted -/
 def hashLim (g : Graph) : Nat → Nat → Option Unit
@@ -391,16 +398,15 @@ def dropNativeKind (c : Cfg) : Kind → Bool
 
 /-- native frames of dropping the last reference to `v`: recursive glue until a kind with a `Drop` impl hands
     everything below it to the worklist -/
-def dropDepth (c : Cfg) (g : Graph) : Nat → Nat → Nat
-  | 0, _ => 0
-  | f + 1, v => if dropNativeKind c (g.kind v) then 1 + maxL ((g.sons v).map (dropDepth c g f)) else 1
+def dropDepth (c : Cfg) (g : Graph) (fuel v : Nat) : Nat :=
+  recDepth g.sons (fun v => dropNativeKind c (g.kind v)) fuel v
+
+/-- the keys of a node that are containers -/
+def containerKeys (g : Graph) (v : Nat) : List Nat := (g.node v).keys.filter fun k => g.kind k != .leaf
 
 /-- native re-entries of `==` for keys: a map / set whose key is a container compares it by calling `==` again -/
-def eqKeyDepth (c : Cfg) (g : Graph) : Nat → Nat → Nat
-  | 0, _ => 0
-  | f + 1, v =>
-    if c.eqKeysIterative then 1
-    else 1 + maxL (((g.node v).keys.filter fun k => g.kind k != .leaf).map (eqKeyDepth c g f))
+def eqKeyDepth (c : Cfg) (g : Graph) (fuel v : Nat) : Nat :=
+  recDepth (containerKeys g) (fun _ => !c.eqKeysIterative) fuel v
 
 /-! ## Operations and their cost -/
 
